@@ -1114,8 +1114,17 @@ func init() {
 
 // storesFieldTransitively: functions that (directly or through statically resolved callees) assign to field fv.
 func (c *Ctx) storesFieldTransitively(fv *types.Var) map[*FuncInfo]bool {
+	return c.storesFieldTransitivelyWhere(fv, false)
+}
+
+// storesFieldTransitivelyWhere: as storesFieldTransitively; with nonNilOnly, stores of the nil literal do not count
+// (closing a stream is not re-opening it).
+func (c *Ctx) storesFieldTransitivelyWhere(fv *types.Var, nonNilOnly bool) map[*FuncInfo]bool {
 	direct := map[*FuncInfo]bool{}
 	for _, st := range c.storesTo(fv) {
+		if nonNilOnly && st.Value != nil && isNilIdent(st.In.Pkg.TypesInfo, st.Value) {
+			continue
+		}
 		direct[st.In] = true
 	}
 	reach := map[*FuncInfo]bool{}
@@ -1149,7 +1158,9 @@ func ruleC14NoStalePosition(c *Ctx) {
 	if rd == nil {
 		return
 	}
-	replaces := c.storesFieldTransitively(rd)
+	// re-opening is what makes a remembered byte count stale (the new stream counts from zero); closing the stream
+	// (a nil store) leaves the count what it is: the handle's position
+	replaces := c.storesFieldTransitivelyWhere(rd, true)
 	n := 0
 	for _, f := range c.Funcs {
 		if f.RelPkg() != "pkg/fs" || f.Lit != nil {
@@ -1160,8 +1171,8 @@ func ruleC14NoStalePosition(c *Ctx) {
 		stores := false
 		walkOwn(f.Body(), func(nd ast.Node) {
 			if as, ok := nd.(*ast.AssignStmt); ok {
-				for _, l := range as.Lhs {
-					if selField(info, l) == rd {
+				for i, l := range as.Lhs {
+					if selField(info, l) == rd && !(len(as.Lhs) == len(as.Rhs) && isNilIdent(info, as.Rhs[i])) {
 						stores = true
 					}
 				}
@@ -1212,8 +1223,8 @@ func ruleC14NoStalePosition(c *Ctx) {
 					return s | 1
 				}
 				if as, ok := nd.(*ast.AssignStmt); ok {
-					for _, l := range as.Lhs {
-						if selField(info, l) == rd {
+					for i, l := range as.Lhs {
+						if selField(info, l) == rd && !(len(as.Lhs) == len(as.Rhs) && isNilIdent(info, as.Rhs[i])) {
 							s &^= 1
 						}
 					}
@@ -3574,8 +3585,10 @@ func ruleWriteCursorAfterLoad(rule string) func(*Ctx) {
 			if !ok || se.Sel.Name != "Seek" || selField(info, se.X) != writeBuf || len(call.Args) != 2 {
 				return false
 			}
-			tv0, tv1 := info.Types[call.Args[0]], info.Types[call.Args[1]]
-			return tv0.Value != nil && tv0.Value.String() == "0" && tv1.Value != nil && tv1.Value.String() == "0"
+			// an absolute seek (whence io.SeekStart) puts the cursor where the code says, whatever loading left behind:
+			// to the start, or to the position the handle had while reading
+			tv1 := info.Types[call.Args[1]]
+			return tv1.Value != nil && tv1.Value.String() == "0"
 		}
 		loads := 0
 		an := &Analysis{Must: true, Entry: rewoundOrAppending | notTruncated,
@@ -4172,13 +4185,24 @@ func ruleRowWriteColumns(c *Ctx, rule string, entry string, wantFull bool, floor
 				if len(cs.Call.Args) >= 3 {
 					if call, ok := ast.Unparen(cs.Call.Args[len(cs.Call.Args)-1]).(*ast.CallExpr); ok {
 						if fn, ok := calleeObj(info, call).(*types.Func); ok && fn.Name() == "Blacklist" && strings.HasSuffix(fn.Pkg().Path(), "/boil") {
+							var others []string
 							for _, a := range call.Args {
+								isDeleted := false
 								if se, ok := ast.Unparen(a).(*ast.SelectorExpr); ok && se.Sel.Name == "Deleted" {
-									keeps = true
+									isDeleted = true
 								}
 								if sv, ok := constString(info, a); ok && sv == "deleted" {
-									keeps = true
+									isDeleted = true
 								}
+								if isDeleted {
+									keeps = true
+								} else {
+									others = append(others, exprString(a))
+								}
+							}
+							// every other column is the record's to update (its PAX records carry the uncompressed size, ...)
+							if len(others) > 0 {
+								c.bad(rule, g, fmt.Sprintf("%s %s#%d frozen columns", short, cs.Callee.Name(), n), cs.Call.Pos(), "the row write of UpdateHeaderMetadata leaves out %s besides the tombstone flag: an update record can no longer change them, so e.g. the size carried in the record's PAX records stays what it was when the (empty) file was created, and a chmod record is indexed with size 0", strings.Join(others, ", "))
 							}
 						}
 					}
